@@ -109,4 +109,31 @@ from impls.rs are the model's walk at a `numbered n` node without attributes —
 only it, is read or replaced (32 statements: `Lemmas/GenTieTuples.lean`). -/
 theorem source_tuple_access_is_model : TupleValueTies := tupleValueTies
 
+
+open MiniconfVerif.Gen MiniconfVerif.Gen.Core MiniconfVerif.GenTie in
+/-- `Option<T>`: the four by-key functions as translated from impls.rs (`self.as_ref()/as_mut().ok_or(Absent(0))?` then the
+value's own function) are the model's walk at an `Option` gate — `None` is `Absent(0)` before any key is consumed and
+changes nothing, `Some` delegates and keeps the (possibly updated) value inside `Some`. -/
+theorem source_option_access_is_model (io : Io) (closed : Bool) (inner : Tree) (ks : KeySrc)
+    (childSer : Tree → KeySrc → Except (Error Unit) Nat) (childDe : Tree → KeySrc → Except (Error Unit) Nat × Tree)
+    (hs : ∀ t ks, resOfGen (childSer t ks) = (t.walk io .ser ks).res)
+    (hd : ∀ t ks, resOfGen (childDe t ks).1 = (t.walk io .de ks).res ∧ (childDe t ks).2 = (t.walk io .de ks).tree) :
+    resOfGen (Impls.Option.serialize_by_key childSer (optSelf closed inner) ks) =
+      (Tree.walk io .ser (.gate .option closed inner) ks).res ∧
+    resOfGen (Impls.Option.deserialize_by_key childDe (optSelf closed inner) ks).2 =
+      (Tree.walk io .de (.gate .option closed inner) ks).res ∧
+    (match (Impls.Option.deserialize_by_key childDe (optSelf closed inner) ks).1 with
+      | some t' => Tree.gate .option false t' = (Tree.walk io .de (.gate .option closed inner) ks).tree
+      | none => Tree.gate .option true inner = (Tree.walk io .de (.gate .option closed inner) ks).tree) := by
+  have h := option_tie io closed inner ks childSer childDe (fun t ks => .ok ()) (fun t ks => (.ok (), (t.walk io .mutAny ks).tree))
+    hs hd
+  -- the `Any` halves are not needed here; discharge their hypotheses only where they are trivially true
+  cases closed with
+  | true =>
+    simp [optSelf, Impls.Option.serialize_by_key, Impls.Option.deserialize_by_key, Tree.walk, gateErr, resOfGen, travOfGen]
+  | false =>
+    simp only [optSelf, Bool.false_eq_true, if_false, Impls.Option.serialize_by_key, Impls.Option.deserialize_by_key,
+      Tree.walk, gateErr]
+    exact ⟨hs _ _, (hd _ _).1, by rw [(hd _ _).2]⟩
+
 end MiniconfVerif.C01
